@@ -1,6 +1,7 @@
 package printer
 
 import (
+	"bytes"
 	"io"
 
 	"github.com/z7zmey/php-parser/pkg/ast"
@@ -20,11 +21,20 @@ func (p *printer) write(b []byte) {
 		return
 	}
 	if p.state == 0 {
-		p.output.Write([]byte("<?php "))
+		if !bytes.HasPrefix(b, []byte("<?")) {
+			p.output.Write([]byte("<?php "))
+		}
 		p.state = 1
+	}
+	if p.last != nil && isLabelChar(p.last[len(p.last)-1]) && isLabelChar(b[0]) {
+		p.output.Write([]byte(" "))
 	}
 	p.last = b
 	p.output.Write(b)
+}
+
+func isLabelChar(r byte) bool {
+	return (r >= 'A' && r <= 'Z') || (r >= 'a' && r <= 'z') || (r >= '0' && r <= '9') || r == '_' || r >= 0x80
 }
 
 func (p *printer) printNode(n ast.Vertex) {
